@@ -28,6 +28,7 @@ from agilerl.wrappers.pettingzoo_wrappers import PettingZooAutoResetParallelWrap
 from ..core import HarnessError, Partial
 from ..fixtures.procrun import live_children, run_trace
 from ..fixtures.scriptenv import ACT_KINDS, END_MODES, OBS_KINDS, Gate, ScriptEnv, action_value, env_fn
+LEAVES = [False, True, 2]   # agent_0 stays / leaves one step / two steps before the end of its episode (see ScriptEnv._leave_step)
 
 LEVEL = "model_checking"
 RULE = (
@@ -60,7 +61,7 @@ def bounds(tier):
     q = tier == "quick"
     return {
         "A_schedules": {
-            "N": [1, 2, 3], "lengths": "{1,2,3}^N", "end": END_MODES, "leave": [False, True],
+            "N": [1, 2, 3], "lengths": "{1,2,3}^N", "end": END_MODES, "leave": LEAVES,
             "agents": [2] if q else [2, 3], "steps": "2*max(length)+1",
             "orders": ("N>=2: identity, reverse, free-running" if q else
                        "N=2: all 2^4 per-step order sequences (cycled) + free; N=3: 6 constant orders + 6 rotations through S_3 + free"),
@@ -69,7 +70,7 @@ def bounds(tier):
         "B_representation": {
             "obs": OBS_KINDS, "act": ACT_KINDS, "agents": [1, 2, 3], "copy": [True, False], "seed": [None, 7],
             "interleavings": ([[2], [1, 2], [2, 1, 3]] if q else [[2], [3], [1, 2], [3, 1], [2, 1, 3], [1, 3, 2]]),
-            "end_leave": ([["term", False], ["trunc", False], ["term", True]] if q else "end x leave (6)"),
+            "end_leave": ([["term", False], ["trunc", False], ["term", True], ["term", 2]] if q else "end x leave (9)"),
             "orders": "reverse", "action_patterns": 1,
         },
         "C_actions": {
@@ -77,7 +78,7 @@ def bounds(tier):
                                                 [[1, 1, [2], 5], [2, 1, [1, 2], 4], [1, 2, [2], 4], [2, 2, [2, 1], 2]]),
             "act": ACT_KINDS, "sequences": "all 2^(steps*N*agents)",
         },
-        "W_wrapper": {"lengths": [1, 2, 3], "end": END_MODES, "leave": [False, True], "agents": [1, 2, 3], "obs": OBS_KINDS,
+        "W_wrapper": {"lengths": [1, 2, 3], "end": END_MODES, "leave": LEAVES, "agents": [1, 2, 3], "obs": OBS_KINDS,
                       "act": ACT_KINDS, "seed": [None, 7], "action_patterns": 2 if q else 4,
                       "steps": "2*length+1",
                       "all_action_sequences": "agents=1 (all lengths)" if q else "agents=1 (all lengths); agents=2 with length 1"},
@@ -157,8 +158,8 @@ def specs_of(task):
     if fam == "A":
         N, L, A = task["N"], task["L"], task["A"]
         steps = 2 * max(L) + 1
-        for leave in (False, True):
-            if leave and max(L) < 2:
+        for leave in LEAVES:
+            if max(L) <= int(leave):
                 continue
             for orders in order_schedules(N, tier):
                 for p in range(b["A_schedules"]["action_patterns"]):
@@ -169,12 +170,12 @@ def specs_of(task):
         inter = b["B_representation"]["interleavings"]
         el = b["B_representation"]["end_leave"]
         if isinstance(el, str):
-            el = [[e, l] for e in END_MODES for l in (False, True)]
+            el = [[e, l] for e in END_MODES for l in LEAVES]
         for L in inter:
             N = len(L)
             steps = 2 * max(L) + 1
             for end, leave in el:
-                if leave and A < 2:
+                if leave and (A < 2 or max(L) <= int(leave)):
                     continue
                 for copy in (True, False):
                     for sd in (None, 7):
@@ -191,9 +192,9 @@ def specs_of(task):
         for L in (1, 2, 3):
             steps = 2 * L + 1
             for end in END_MODES:
-                for leave in (False, True):
+                for leave in LEAVES:
                     for A in (1, 2, 3):
-                        if leave and (A < 2 or L < 2):
+                        if leave and (A < 2 or L <= int(leave)):
                             continue
                         for sd in (None, 7):
                             pats = [pattern_bits(p, steps, 1, A) for p in range(b["W_wrapper"]["action_patterns"])]
